@@ -251,6 +251,36 @@ def reuse_probe(ctx, which):
                                  "message": f"{kind} regions updated in place (scales 1 .. {scale}, cone {cn}): is_{which} answers {got}, freshly constructed regions with the same centre / covariance / scale answer {want}",
                                  "replay": {"reuse": which, "kind": kind, "cone": cn, "scale": scale}})
                     break
+    # rectangles whose bounds change through intersect() (directly, or through update() in the iterative mode):
+    # deterministic histories in which the bounds change flips the answer; compared with regions freshly
+    # constructed from the bounds currently displayed
+    seqs = [[([-3.0, -3.0], [5.0, 5.0]), ([-3.0, -3.0], [-2.0, -2.0]), ([4.0, 4.0], [5.0, 5.0]), ([4.5, 3.0], [6.0, 4.75])],
+            [([2.0, 2.0], [3.0, 3.0]), ([2.5, 2.5], [2.75, 2.75]), ([-4.0, -4.0], [-3.0, -3.5]), ([-3.5, -5.0], [0.0, -3.75])]]
+    for cn in ("orthant2", "acute2", "obtuse2"):
+        order = impl.order_from_W(gen.CONES_2D[cn][0])
+        for si, seq in enumerate(seqs):
+            for via in ("intersect", "update"):
+                A = RectangularConfidenceRegion(2, np.array([0.0, 0.0]), np.array([1.0, 1.0]), intersect_iteratively=True)
+                B = RectangularConfidenceRegion(2, intersect_iteratively=True)
+                for step, (lo, up) in enumerate(seq):
+                    lo, up = np.array(lo), np.array(up)
+                    if via == "intersect":
+                        B.intersect(lo.copy(), up.copy())
+                    else:
+                        B.update((lo + up) / 2, np.diag(((up - lo) / 2) ** 2), np.array(1.0))
+                    FA = RectangularConfidenceRegion(2, A.lower.copy(), A.upper.copy())
+                    FB = RectangularConfidenceRegion(2, B.lower.copy(), B.upper.copy())
+                    for X, Y, FX, FY, nm in ((A, B, FA, FB, "A by B"), (B, A, FB, FA, "B by A")):
+                        n += 1
+                        got, want = bool(pred(order, X, Y, 0.0)), bool(pred(order, FX, FY, 0.0))
+                        if got != want:
+                            viol.append({"signature": f"region-object-history-dependence:{which}",
+                                         "message": f"rectangle B narrowed through {via}() to [{B.lower.tolist()}, {B.upper.tolist()}] (step {step + 1} of history {si}, cone {cn}): is_{which} ({nm}) answers {got}, fresh regions with the displayed bounds answer {want}",
+                                         "replay": {"reuse": which, "kind": "rect-" + via, "cone": cn, "history": si, "step": step}})
+                            break
+                    else:
+                        continue
+                    break
     return viol, n
 
 
@@ -266,6 +296,16 @@ def vertices_check(ctx):
             up = lo + np.array([rng.choice([0.0, 0.25, 1.0, 2.5]) for _ in range(m)])
             keep = (lo.copy(), up.copy())
             V = np.asarray(hyperrectangle_get_vertices(lo, up))
+            if _ == 1:
+                # bounds typed the way the library's own tests type them: whole-number lower corner, fractional upper
+                lo = np.array([rng.randint(-2, 2) for _i in range(m)]); up = lo + np.array([rng.choice([0.25, 0.5, 1.75]) for _i in range(m)])
+                keep = (lo.copy(), up.copy())
+                V = np.asarray(hyperrectangle_get_vertices(lo, up))
+            elif _ == 2:
+                lo = [rng.randint(-2, 2) for _i in range(m)]; up = [a + rng.choice([0.25, 0.5, 1.75]) for a in lo]
+                keep = (np.array(lo, dtype=float), np.array(up, dtype=float))
+                V = np.asarray(hyperrectangle_get_vertices(lo, up))
+                lo, up = keep
             n += 1
             want = {tuple(c) for c in itertools.product(*[(float(a), float(b)) for a, b in zip(keep[0], keep[1])])}
             got = {tuple(float(x) for x in r) for r in V}
